@@ -712,3 +712,96 @@ def seedOK (x q : String) (p : Program) : Bool :=
   x != "" && p.callables.all (fun c => c.name != x || (graphRefs c).all (fun r => !selfRefTo q r))
 
 end Martian.Refactor
+
+namespace Martian.Refactor
+
+/-! ### the same resolution with EXPLICIT fuel exhaustion
+
+`callOutputsO` / `nodesOfO` return `none` exactly when a branch that is really
+followed runs out of fuel (the fuelled functions above return null / no nodes
+there).  `Props.C19.graph_fuel_stable`: when this run succeeds at some budget,
+the fuelled run gives the same graph at that and every larger budget. -/
+
+def substRefsO (f : Ref → Option RExp) : Exp → Option RExp
+  | .lit s => some (.lit s)
+  | .ref r => f r
+  | .split e => (substRefsO f e).map .split
+  | .arr es => (substRefsO f es).map .arr
+  | .map b es => (substRefsO f es).map (.map b)
+  | .nil => some .nil
+  | .cons k h t =>
+    match substRefsO f h, substRefsO f t with
+    | some h', some t' => some (.cons k h' t')
+    | _, _ => none
+
+def lookupRefO (self : Env) (outs : String → Option RExp) (r : Ref) : Option RExp :=
+  (match r.kind with
+   | .self => some (envGet self r.id)
+   | .call => outs r.id).map (bindingPath r.path)
+
+def resolveBindsO (ti : TypeInfo) (tys : Members) (f : Ref → Option RExp) : List Bind → Option Env
+  | [] => some []
+  | b :: bs =>
+    match substRefsO f b.exp, resolveBindsO ti tys f bs with
+    | some v, some rest =>
+      some ((b.name, match tys.lookup b.name with
+                     | some ty => filterExp (membersOf ti) ty v
+                     | none => v) :: rest)
+    | _, _ => none
+
+def callOutputsO (ti : TypeInfo) (p : Program) : Nat → Callable → Env → List String → String → Option RExp
+  | 0, _, _, _, _ => none
+  | fuel + 1, pipe, self, pre, id =>
+    match pipe.calls.find? (·.id == id) with
+    | none => some rnull
+    | some k =>
+      match p.find? k.decId with
+      | none => some rnull
+      | some d =>
+        if !d.isPipe then some (if d.outs.isEmpty then rnull else .sref (pre ++ [id]) d.name [])
+        else if d.ret.isEmpty then some rnull
+        else
+          match resolveBindsO ti (insOf ti d.name) (lookupRefO self (callOutputsO ti p fuel pipe self pre))
+                  (expandWild ti pipe d.ins k.binds) with
+          | none => none
+          | some ins =>
+            (resolveBindsO ti (outsOf ti d.name) (lookupRefO ins (callOutputsO ti p fuel d ins (pre ++ [id])))
+              (expandWild ti d (outNames d) d.ret)).map (fun env => .map true (envEntries env))
+
+def allSome {α : Type} : List (Option (List α)) → Option (List α)
+  | [] => some []
+  | none :: _ => none
+  | some l :: rest => (allSome rest).map (l ++ ·)
+
+def retainedO (d : Callable) (ins : Env) (sib : String → Option RExp) : List Ref → Option (List RExp)
+  | [] => some []
+  | r :: rs =>
+    match lookupRefO ins sib r, retainedO d ins sib rs with
+    | some v, some rest => some (rrefs v ++ rest)
+    | _, _ => none
+
+def nodesOfO (ti : TypeInfo) (p : Program) (big : Nat) : Nat → Callable → Env → List String → Call → Option (List Node)
+  | 0, _, _, _, _ => none
+  | fuel + 1, pipe, self, pre, k =>
+    match p.find? k.decId with
+    | none => some []
+    | some d =>
+      match resolveBindsO ti (insOf ti d.name) (lookupRefO self (callOutputsO ti p big pipe self pre))
+              (expandWild ti pipe d.ins k.binds),
+            callOutputsO ti p (big + 1) pipe self pre k.id with
+      | some ins, some out =>
+        let fq := pre ++ [k.id]
+        match (if d.isPipe then retainedO d ins (callOutputsO ti p big d ins fq) d.retain else some []),
+              (if d.isPipe then allSome (d.calls.map (nodesOfO ti p big fuel d ins fq)) else some []) with
+        | some ret, some kids =>
+          some ({ fqid := fq, callable := d.name, isPipe := d.isPipe, inputs := ins, outputs := out,
+                  retained := ret } :: kids)
+        | _, _ => none
+      | _, _ => none
+
+def deepGraphO (big fuel : Nat) (ti : TypeInfo) (p : Program) : Option (List Node) :=
+  match p.top with
+  | none => some []
+  | some t => nodesOfO ti p big fuel (topPipe t) [] [] t
+
+end Martian.Refactor
